@@ -503,6 +503,7 @@ cgsitrf(superlu_options_t *options, SuperMatrix *A, int relax, int panel_size,
 			if ((*info = cLUMemXpand(jj, xlusup[jj], LUSUP, &nzlumax, Glu)))
 			    return;
 		    }
+		    lsub = Glu->lsub; /* a caller's work array: growing LUSUP moves LSUB */
 		    xlsub[jj + 1]++;
 		    assert(xlusup[jj]==xlusup[jj+1]);
 		    xlusup[jj + 1]++;
